@@ -41,6 +41,7 @@ class LinearMeanGradGrad(Mean):
         res = x.matmul(self.weights)
         if self.bias is not None:
             res = res + self.bias.unsqueeze(-1)
-        dres = self.weights.expand(x.transpose(-1, -2).shape).transpose(-1, -2)
+        # broadcast against the data like `res` (batched weights with shared or size-1-batched inputs)
+        dres = self.weights.transpose(-1, -2).expand(*res.shape[:-1], self.weights.size(-2))
         ddres = torch.zeros_like(dres)
         return torch.cat((res, dres, ddres), -1)
